@@ -7,7 +7,7 @@ from verif import gfi, programs as PG
 from verif.engine import Ob
 
 LEVEL = "model_checking"
-BOUNDS = {"inner programs": "inner1, inner2 (hierarchical addresses), innerS (two args), switch, mask, vmap (nested)", "lengths": "0,1,2,3", "in_axes": "0 | (0,None) | (None,0) | nested tuple",
+BOUNDS = {"inner programs": "inner1, inner2 (hierarchical addresses), innerS (two args), switch, mask, vmap (nested)", "lengths": "0,1,2,3", "in_axes": "0 | (0,None) | (None,0) | (1,) over a square 2x2 argument | nested tuple",
           "constraints": "full slices, arange index arrays, one symbolic scalar index (all integers in range), IndexRequest(i symbolic)"}
 ASSUMPTIONS = ["oracle 1: the inner program's own GFI called per element in a Python loop (same real code, independent of Vmap); oracle 2: the reference denotation"]
 OUTSIDE = ["lengths > 3", "partial slices (rejected by the API)"]
@@ -20,7 +20,7 @@ def _f(x):
 def obligations(tier, seed):
     cat = PG.catalogue()
     obs = []
-    names = ["vmap(inner1)", "vmap(inner2)", "vmap(innerS;0,None)", "repeat(inner1)", "static(vmap)"] + (["vmap(vmap)", "vmap(switch)", "vmap(mask)", "vmap(scan)"] if tier == "thorough" else ["vmap(mask)"])
+    names = ["vmap(inner1)", "vmap(inner2)", "vmap(innerS;0,None)", "vmap(innerV;axis1)", "repeat(inner1)", "static(vmap)"] + (["vmap(vmap)", "vmap(switch)", "vmap(mask)", "vmap(scan)"] if tier == "thorough" else ["vmap(mask)"])
     for nm in names:
         obs += gfi.family("C11", nm, cat[nm](), tier)
     extra = {
